@@ -34,6 +34,13 @@ func equalityTreeCfg() TreeCfg {
 	cfg.KeyGen = func(t *rapid.T) string {
 		return []string{"a", "b", "c", "", "k.1", "é", "key"}[drawIdx(t, 7, "key")]
 	}
+	cfg.LeafExtra = func(t *rapid.T) (V, bool) {
+		// the infinities are ordinary values for Equals (equal to themselves, unlike NaN)
+		if oneIn(t, 30, "inf") {
+			return VFloat(math.Inf(1 - 2*drawInt(t, 0, 1, "sign"))), true
+		}
+		return V{}, false
+	}
 	return cfg
 }
 
@@ -393,6 +400,6 @@ func CheckC07(c *C07Case, st *Stats) error {
 
 func init() {
 	Register("C07",
-		"pairs and triples of NaN-free trees with the same root kind (incl. long lists of 60-130 scalars edited near the end, wide objects of 60-129 keys, chains up to 70 levels): b is a rebuilt copy of a, a with exactly one edit at a drawn depth (scalar value changed (also by letter case only); scalar kind changed keeping its spelling 1<->1.0, nil<->false, \"1\"<->1, []<->{}; key renamed; element/field appended, prepended or removed; two elements swapped; field insertion order permuted), two edits, or an unrelated tree; triples chain two such steps. Oracle: Equals(x,y) == typed structural equality computed by the harness on the generator's trees for ALL ordered pairs (so reflexivity, symmetry, transitivity are also asserted explicitly), Equals with an independently rebuilt copy is true, no call panics, operands unchanged (content and identities). Non-trivial = b (or c) derived by one or two edits (including the order permutation that must stay equal). Distinct = distinct FNV-64a hash of the case JSON.",
+		"pairs and triples of NaN-free trees (the infinities included) with the same root kind (incl. long lists of 60-130 scalars edited near the end, wide objects of 60-129 keys, chains up to 70 levels): b is a rebuilt copy of a, a with exactly one edit at a drawn depth (scalar value changed (also by letter case only); scalar kind changed keeping its spelling 1<->1.0, nil<->false, \"1\"<->1, []<->{}; key renamed; element/field appended, prepended or removed; two elements swapped; field insertion order permuted), two edits, or an unrelated tree; triples chain two such steps. Oracle: Equals(x,y) == typed structural equality computed by the harness on the generator's trees for ALL ordered pairs (so reflexivity, symmetry, transitivity are also asserted explicitly), Equals with an independently rebuilt copy is true, no call panics, operands unchanged (content and identities). Non-trivial = b (or c) derived by one or two edits (including the order permutation that must stay equal). Distinct = distinct FNV-64a hash of the case JSON.",
 		GenC07, CheckC07)
 }
